@@ -13,6 +13,7 @@ import (
 	"strings"
 
 	"github.com/bytom/bytom/config"
+	dbm "github.com/bytom/bytom/database/leveldb"
 	"github.com/bytom/bytom/protocol/bc"
 	"github.com/bytom/bytom/protocol/bc/types"
 	"github.com/bytom/bytom/protocol/state"
@@ -26,22 +27,27 @@ type nodeCase struct {
 	sut  *node // node under test
 	maxH uint64
 	// oracle bookkeeping
-	finalizedSeq []string
-	finalEver    map[string]bool         // every checkpoint ever reported as last finalized
-	recvValid    map[string]map[int]bool // "src>tgt" -> validators whose validly signed vote the node received
-	justSeen     map[string]bool         // checkpoints already seen justified/finalized
-	admitted     map[string]bool         // "v|src|tgt" votes observed inside checkpoints or posted by the node
-	restarted    bool
-	slashSeen    map[string]bool
-	lastRefErr   string
-	lastSigner   int
-	ln           *ledgerNames
-	mutants      map[string]string // block name -> broken rule ("" = valid block on top of a mutant)
-	blockTxs     map[string][]*txInfo // block name -> its transactions (coinbase first)
-	delivered    map[string]bool
-	rejected     map[string]bool // delivered only in a deliberately corrupted variant
-	mode         string
-	dead         bool
+	finalizedSeq  []string
+	finalEver     map[string]bool         // every checkpoint ever reported as last finalized
+	recvValid     map[string]map[int]bool // "src>tgt" -> validators whose validly signed vote the node received
+	justSeen      map[string]bool         // checkpoints already seen justified/finalized
+	admitted      map[string]bool         // "v|src|tgt" votes observed inside checkpoints or posted by the node
+	restarted     bool
+	slashSeen     map[string]bool
+	lastRefErr    string
+	lastSigner    int
+	ln            *ledgerNames
+	mutants       map[string]string // block name -> broken rule ("" = valid block on top of a mutant)
+	events        []nodeEvent
+	crashLog      *logDB
+	crashDone     bool
+	initLogLen    int
+	dumpAfterInit string
+	blockTxs      map[string][]*txInfo // block name -> its transactions (coinbase first)
+	delivered     map[string]bool
+	rejected      map[string]bool // delivered only in a deliberately corrupted variant
+	mode          string
+	dead          bool
 }
 
 func (nc *nodeCase) emit(op, res string) { nc.c.Op(op, res) }
@@ -57,11 +63,19 @@ func newNodeCase(c *Ctx, mode string, E uint64, nVal, local int, pend uint64) *n
 	}
 	nc.ref = ref
 	env.useLocalKey()
-	sut, err := newNode(env, nil)
+	var sutDB dbm.DB
+	if recordCrashCase {
+		nc.crashLog = &logDB{DB: dbm.NewMemDB()}
+		sutDB = nc.crashLog
+	}
+	sut, err := newNode(env, sutDB)
 	if err != nil {
 		panic(err)
 	}
 	nc.sut = sut
+	if nc.crashLog != nil {
+		nc.initLogLen = len(nc.crashLog.log)
+	}
 	g := config.GenesisBlock()
 	nc.nm.add("b0", g)
 	nc.delivered["b0"] = true
@@ -69,13 +83,24 @@ func newNodeCase(c *Ctx, mode string, E uint64, nVal, local int, pend uint64) *n
 	if local >= 0 {
 		localS = fmt.Sprint(local)
 	}
-	nc.emit(fmt.Sprintf("reset E=%d V=%d local=%s pend=%d interval=%d%s", E, nVal, localS, pend, nodeInterval, caseTag), nc.dump("ok"))
+	nc.dumpAfterInit = nc.dump("ok")
+	nc.emit(fmt.Sprintf("reset E=%d V=%d local=%s pend=%d interval=%d%s", E, nVal, localS, pend, nodeInterval, caseTag), nc.dumpAfterInit)
 	return nc
 }
 
-func (nc *nodeCase) ledgerMode() bool { return nc.mode == "ledger" || nc.mode == "rules" }
+func (nc *nodeCase) ledgerMode() bool {
+	return nc.mode == "ledger" || nc.mode == "rules" || nc.mode == "crash"
+}
 
 func (nc *nodeCase) close() {
+	if nc.crashLog != nil && !nc.crashDone && len(nc.events) > 0 && !nc.dead {
+		nc.crashDone = true
+		limit := 60
+		if nc.c.Tier == "thorough" {
+			limit = 100000
+		}
+		nc.runCrashPoints(limit)
+	}
 	nc.ref.close()
 	nc.sut.close()
 }
@@ -225,7 +250,11 @@ func (nc *nodeCase) deliver(name string, sups ...supSpec) procResult {
 			}
 		}
 	}
-	nc.emit(op, nc.dump(r.String()))
+	d := nc.dump(r.String())
+	nc.emit(op, d)
+	if nc.crashLog != nil {
+		nc.events = append(nc.events, nodeEvent{kind: "deliver", name: name, sups: sups, logLenPost: len(nc.crashLog.log), dumpPost: d})
+	}
 	nc.oracleAfterEvent(op, r)
 	return r
 }
@@ -239,6 +268,9 @@ func (nc *nodeCase) noteValid(src, tgt string, order int) {
 }
 
 func (nc *nodeCase) restart() {
+	if nc.crashLog != nil {
+		return // crash cases restart on every write boundary instead
+	}
 	// the orphan pool lives in memory only: blocks waiting there are forgotten by a restart
 	if orph, _ := nc.sut.chain.VerifNodeOrphans(); true {
 		for _, h := range orph {
@@ -280,7 +312,11 @@ func (nc *nodeCase) vote(order int, src, tgt string, valid bool) {
 		v = 1
 	}
 	op := fmt.Sprintf("vote v=%d src=%s tgt=%s sig=%d", order, src, tgt, v)
-	nc.emit(op, nc.dump(res))
+	dv := nc.dump(res)
+	nc.emit(op, dv)
+	if nc.crashLog != nil {
+		nc.events = append(nc.events, nodeEvent{kind: "vote", order: order, src: src, tgt: tgt, valid: valid, logLenPost: len(nc.crashLog.log), dumpPost: dv})
+	}
 	if res == "panic" {
 		nc.c.Fail("C37:vote-panic", "verification message handling panicked on "+op)
 		return
@@ -619,6 +655,8 @@ func runNodeCase(c *Ctx, mode string, seed int64, k int) {
 		genCaseLedger(c, mode)
 	case "rules":
 		genCaseRules(c, mode)
+	case "crash":
+		genCaseCrash(c, mode)
 	default:
 		genCaseTree(c, mode)
 	}
